@@ -20,6 +20,7 @@ ROOT = os.path.dirname(os.path.dirname(os.path.abspath(__file__)))
 # which contract modules serve which property
 PROP_MODULES = {
     "C12": ["c12"],
+    "C11": ["c11"],
 }
 
 
